@@ -390,6 +390,26 @@ def generate(unit_dir, mustfail=False, mutate=None, variant=None, template='unit
             extra.append('' if plain else '}')
             g.auto_stubbed.append(st['qual'])
         out[k:k] = extra
+    consts = {}
+    for lst in (auto_stubs or {}).values():
+        for st in lst:
+            if st['kind'] == 'const':
+                consts[st['qual']] = st
+    if consts:
+        k = max(n for n, l in enumerate(out) if l.startswith('fn main()'))
+        extra = []
+        for st in consts.values():
+            rf = load(st['file'])
+            a, kw, b = rf.find_item(st['ckind'], st['qual'])
+            txt = transform.strip_attrs_and_vis(rf.text[a:b], plain=plain)
+            if not plain:
+                txt = re.sub(r':\s*&\s*str\b', ": &'static str", txt, count=1)
+            txt = publicize(txt, 'const')
+            extra.append('' if plain else 'verus! {')
+            extra.extend(txt.strip().split('\n'))
+            extra.append('' if plain else '}')
+            g.auto_stubbed.append('const ' + st['qual'])
+        out[k:k] = extra
     mods = {}
     for lst in (auto_stubs or {}).values():
         for st in lst:
@@ -510,6 +530,8 @@ def rename_map(old, new):
     kept = set(old) - set(m)
     if kept & set(m.values()):
         return None
+    if set(old) & set(m.values()):
+        return None      # a "new" name that the baseline text already bound: a moved `let`, not a renaming (seeded change C10-7)
     return m
 
 
@@ -657,6 +679,22 @@ def unresolved_callees(g, diags):
             continue
         ln = prim[0]['line_start']
         rec = next((r for r in g.fns if r.gen_lines[0] <= ln <= r.gen_lines[1]), None)
+        m0 = re.match(r'cannot find value `([A-Z][A-Z0-9_]*)` in this scope', msg)
+        if m0 and g.fns:
+            # a module-level constant the source gained (used by the extracted text or by an auto-stubbed helper): take its real text
+            hit = False
+            for rel in ([rec.file] if rec else []) + sorted({r.file for r in g.fns}):
+                for kind in ('const', 'static'):
+                    try:
+                        load(rel).find_item(kind, m0.group(1))
+                    except ExtractError:
+                        continue
+                    out.append((g.fns[0].qual, dict(kind='const', ckind=kind, file=rel, qual=m0.group(1))))
+                    hit = True
+                    break
+                if hit:
+                    break
+            continue
         if rec is None:
             continue
         rf = load(rec.file)
